@@ -23,38 +23,38 @@ func writes(i ...int) ExtInfo { return ExtInfo{Known: true, Writes: i} }
 // a pointer-like argument makes the affected obligation UNDECIDED.
 var externals = map[string]ExtInfo{
 	// pure, result fresh
-	"fmt.Sprintf":        pure(),
-	"fmt.Errorf":         pure(),
-	"strconv.Atoi":       pure(),
-	"strconv.ParseInt":   pure(),
-	"strconv.ParseFloat": pure(),
-	"strconv.FormatInt":  pure(),
-	"strings.HasPrefix":  pure(),
-	"strings.TrimSpace":  pure(),
-	"strings.LastIndex":  pure(),
-	"unicode.IsSpace":    pure(),
-	"path/filepath.Join": pure(),
-	"time.Unix":          pure(),
-	"time.Date":          {Known: true, Aliases: []int{7}},
-	"time.ParseInLocation": {Known: true, Aliases: []int{2}},
-	"time.LoadLocation":  {Known: true, Note: "depends on the host's zone database (assumption)"},
-	"(time.Time).Unix":   pure(),
-	"(time.Time).Before": pure(),
-	"(time.Time).Add":    {Known: true, Aliases: []int{0}},
-	"(time.Time).Equal":  pure(),
-	"(time.Time).In":     {Known: true, Aliases: []int{0, 1}},
-	"(time.Time).Format": pure(),
-	"(time.Time).String": pure(),
+	"fmt.Sprintf":                         pure(),
+	"fmt.Errorf":                          pure(),
+	"strconv.Atoi":                        pure(),
+	"strconv.ParseInt":                    pure(),
+	"strconv.ParseFloat":                  pure(),
+	"strconv.FormatInt":                   pure(),
+	"strings.HasPrefix":                   pure(),
+	"strings.TrimSpace":                   pure(),
+	"strings.LastIndex":                   pure(),
+	"unicode.IsSpace":                     pure(),
+	"path/filepath.Join":                  pure(),
+	"time.Unix":                           pure(),
+	"time.Date":                           {Known: true, Aliases: []int{7}},
+	"time.ParseInLocation":                {Known: true, Aliases: []int{2}},
+	"time.LoadLocation":                   {Known: true, Note: "depends on the host's zone database (assumption)"},
+	"(time.Time).Unix":                    pure(),
+	"(time.Time).Before":                  pure(),
+	"(time.Time).Add":                     {Known: true, Aliases: []int{0}},
+	"(time.Time).Equal":                   pure(),
+	"(time.Time).In":                      {Known: true, Aliases: []int{0, 1}},
+	"(time.Time).Format":                  pure(),
+	"(time.Time).String":                  pure(),
 	"(*regexp.Regexp).FindStringSubmatch": {Known: true, MayNil: true, Note: "regexp methods are safe for concurrent use (documented)"},
-	"google.golang.org/protobuf/proto.HasExtension": {Known: true, Note: "extension fields are lazily decoded under internal synchronisation"},
-	"google.golang.org/protobuf/proto.GetExtension": {Known: true, Aliases: []int{0}, MayNil: true},
-	"encoding/json.Marshal":                         pure(),
-	"bytes.NewReader":                               {Known: true, Note: "the reader only reads the slice"},
-	"archive/zip.NewReader":                         pure(),
-	"(*archive/zip.File).Open":                      pure(),
-	"encoding/csv.NewReader":                        pure(),
-	"golang.org/x/text/transform.NewReader":         pure(),
-	"golang.org/x/text/encoding/unicode.BOMOverride": pure(),
+	"google.golang.org/protobuf/proto.HasExtension":    {Known: true, Note: "extension fields are lazily decoded under internal synchronisation"},
+	"google.golang.org/protobuf/proto.GetExtension":    {Known: true, Aliases: []int{0}, MayNil: true},
+	"encoding/json.Marshal":                            pure(),
+	"bytes.NewReader":                                  {Known: true, Note: "the reader only reads the slice"},
+	"archive/zip.NewReader":                            pure(),
+	"(*archive/zip.File).Open":                         pure(),
+	"encoding/csv.NewReader":                           pure(),
+	"golang.org/x/text/transform.NewReader":            pure(),
+	"golang.org/x/text/encoding/unicode.BOMOverride":   pure(),
 	"(golang.org/x/text/encoding.Encoding).NewDecoder": pure(),
 	"(os.DirEntry).Name":                               pure(),
 	"(*strings.Builder).String":                        pure(),
@@ -70,12 +70,12 @@ var externals = map[string]ExtInfo{
 	"(*text/template.Template).Parse": {Known: true, Init: true, Writes: []int{0}, Aliases: []int{0}},
 
 	// writes its argument
-	"sort.Slice":                        writes(0),
-	"sort.SliceStable":                  writes(0),
-	"sort.Strings":                      writes(0),
-	"encoding/binary.Write":             writes(0),
-	"(*bytes.Buffer).Reset":             writes(0),
-	"(*encoding/csv.Reader).Read":       writes(0),
+	"sort.Slice":                                 writes(0),
+	"sort.SliceStable":                           writes(0),
+	"sort.Strings":                               writes(0),
+	"encoding/binary.Write":                      writes(0),
+	"(*bytes.Buffer).Reset":                      writes(0),
+	"(*encoding/csv.Reader).Read":                writes(0),
 	"google.golang.org/protobuf/proto.Unmarshal": writes(1),
 	"(*text/template.Template).Execute":          {Known: true, Writes: []int{1}, Note: "reads the data argument; a parsed template is safe for concurrent execution (documented)"},
 	"(hash.Hash).Write":                          writes(0),
